@@ -146,6 +146,7 @@ QUICK = [
     ('cancel_g1||commit_u2(jobs in g1, g2)', 'nested_ready+u2_in_groups'),
     ('schedule||cancel_g1', 'nested_ready'),
     ('commit_u2||commit_u2(retry)', 'single+u2_child'),
+    ('complete_A||complete_A(duplicate report)', 'pair_running'),
 ]
 
 
@@ -223,9 +224,7 @@ async def _run_op(i, factory):
 
     from batch.exceptions import NonExistentJobGroupError
     from gear.database import CallError
-    from vf import txmc
 
-    txmc.OP.set(i)
     try:
         return ('ok', _summ(await factory()))
     except web.HTTPException as e:
@@ -262,10 +261,26 @@ def _seams(w):
 
 
 def canon(w):
+    """Canonical final store: volatile columns dropped (batchfamily.DROP), and - exactly as batchfamily.check_c01 does -
+    the rows of job_group_inst_coll_cancellable_resources that lie BELOW a cancelled group left out: cancel_job_group
+    is O(1) and leaves them stale by design, nothing reads them again (a group under a cancelled ancestor counts as
+    cancelled) and a sweep deletes them."""
     from vf import batchfamily as bf
 
     d = w.mdb.store.dump(drop=bf.DROP)
     d.pop('batch_bunches', None)
+    T = w.mdb.store.tables
+    cancelled = {(r['id'], r['job_group_id']) for r in T['job_groups_cancelled'].rows.values()}
+    if cancelled and 'job_group_inst_coll_cancellable_resources' in d:
+        below = set()
+        for r in T['job_group_self_and_ancestors'].rows.values():
+            if r['ancestor_id'] != r['job_group_id'] and (r['batch_id'], r['ancestor_id']) in cancelled:
+                below.add((r['batch_id'], r['job_group_id']))
+        t = T['job_group_inst_coll_cancellable_resources']
+        names = [c.name for c in t.cols if c.name not in bf.DROP]
+        ib, ig = names.index('batch_id'), names.index('job_group_id')
+        d['job_group_inst_coll_cancellable_resources'] = [
+            row for row in d['job_group_inst_coll_cancellable_resources'] if (row[ib], row[ig]) not in below]
     return d
 
 
@@ -290,10 +305,11 @@ class Runner:
         self.found: Dict[str, Tuple[str, tuple]] = {}   # signature -> (message, choices) smallest first
         self.stats = {'executions': 0, 'lock_waits': 0, 'deadlocks': 0, 'yields': 0, 'stmt_retries': 0, 'max_workers': 0,
                       'executions_with_lock_wait': 0, 'executions_with_deadlock': 0, 'preimage_rows_served': 0,
-                      'dirty_column_waits': 0, 'locks_s': 0, 'locks_x': 0}
+                      'dirty_column_waits': 0, 'locks_s': 0, 'locks_x': 0, 'beyond_deadlock_bound': 0}
         self.serial: Dict[str, Tuple[dict, tuple]] = {}
         self.last_trace = None
         self.last_dump = None
+        self.first_trace = None
 
     # -- one execution -----------------------------------------------------------------------------------------
     def execute(self, chooser, order=None, trace=False):
@@ -305,56 +321,24 @@ class Runner:
         w = self.w
         w.restore(self.snap)
         factories = [op_factory(w, l) for l in self.labels]
-        tm = txmc.TxModel(w.mdb, snapshot_reads=self.snapshot_reads)
-        if trace:
-            tm.trace = []
-        backend0 = w.gdb.pool._backend
-        w.mdb.txmodel = tm
-        w.gdb.pool._backend = txmc.TxBackend(w.mdb, tm)
-        loop = txmc.make_loop(chooser, tm, w.now_ms / 1000.0)
-        counters: Dict[Any, int] = {}
+        fns = [(lambda i=i, f=f: _run_op(i, f)) for i, f in enumerate(factories)]
 
-        def task_factory(lp, coro, context=None):
-            op = txmc.OP.get()
-            k = counters[op] = counters.get(op, 0) + 1
-            return asyncio.Task(coro, loop=lp, name=f'{op}.{getattr(coro, "__qualname__", "coro")}.{k}', context=context)
+        def set_backend(be):
+            old = w.gdb.pool._backend
+            w.gdb.pool._backend = be
 
-        loop.set_task_factory(task_factory)
-        if self.prune:
-            loop.state_fn = lambda: _h(tm.digest())
+            def undo():
+                w.gdb.pool._backend = old
+            return undo
 
-        async def main():
-            if order is None:
-                ts = [loop.create_task(_run_op(i, f), name=f'op{i}') for i, f in enumerate(factories)]
-                return [await t for t in ts]
-            res = [None] * len(factories)
-            for i in order:
-                res[i] = await _run_op(i, factories[i])
-            txmc.OP.set(None)
-            return res
-
-        left = 0
         try:
-            with _seams(w), vloop.owned_time(lambda: loop):
-                res, exc = loop.run(main(), max_steps=200000)
-                loop.drain()
+            res, tm, errs = txmc.run_execution(w.mdb, fns, chooser, set_backend=set_backend, order=order, t0=w.now_ms / 1000.0,
+                                               snapshot_reads=self.snapshot_reads, prune=self.prune, trace=trace, context=_seams(w))
         finally:
-            try:
-                errs = loop.finish()
-            finally:
-                left = tm.shutdown()
-                w.mdb.txmodel = None
-                w.gdb.pool._backend = backend0
-        if _lx.GAPS:
-            gaps = list(_lx.GAPS)
-            del _lx.GAPS[:]
-            raise RuntimeError(f'minisql harness gap during {self.name}: {gaps[:3]}')
-        if exc is not None:
-            raise exc
-        if left:
-            raise txmc.HarnessError(f'{left} statement(s) still in flight at the end of an execution of {self.name}')
-        if tm.locks or tm.waiting:
-            raise txmc.HarnessError(f'locks / waiters left at the end of an execution: {list(tm.locks)[:3]} {len(tm.waiting)}')
+            if _lx.GAPS:
+                gaps = list(_lx.GAPS)
+                del _lx.GAPS[:]
+                raise RuntimeError(f'minisql harness gap during {self.name}: {gaps[:3]}')
         self.stats['max_workers'] = max(self.stats['max_workers'], tm.pool.created)
         v = bf.View(w)
         sv = []
@@ -381,9 +365,12 @@ class Runner:
         serial = self.serial_refs()
         dump, res, st, trace, sv, errs = self.execute(chooser, trace=True)
         self.last_trace, self.last_dump = trace, dump
+        if self.first_trace is None:
+            self.first_trace = render_trace(trace, 60)
         s = self.stats
         s['executions'] += 1
-        for k in ('lock_waits', 'deadlocks', 'yields', 'stmt_retries', 'preimage_rows_served', 'dirty_column_waits', 'locks_s', 'locks_x'):
+        for k in ('lock_waits', 'deadlocks', 'yields', 'stmt_retries', 'preimage_rows_served', 'dirty_column_waits', 'locks_s', 'locks_x',
+                  'beyond_deadlock_bound'):
             s[k] += st[k]
         s['executions_with_lock_wait'] += bool(st['lock_waits'])
         s['executions_with_deadlock'] += bool(st['deadlocks'])
@@ -473,7 +460,7 @@ def explore_item(item):
                         'replay': {'txpair': name, 'start': start, 'ops': [list(l) for l in labels], 'snapshot_reads': snapshot_reads,
                                    'choices': list(ch)}}
                        for sig, (msg, ch) in sorted(r.found.items())],
-        'sample': res.samples[:1],
+        'sample_schedule': r.first_trace,
     }
     return out
 
@@ -491,6 +478,8 @@ def _by_match(outcomes):
 
 
 def items_for(tier, monitors):
+    """Work items (pair, start state, operations, snapshot_reads, monitors, deviation bound, execution cap).
+    Items with snapshot_reads=True are INFORMATIONAL (see extra_phase)."""
     cat = {n: (starts, labels) for n, starts, labels in PAIRS}
     items = []
     if tier == 'quick':
@@ -499,12 +488,17 @@ def items_for(tier, monitors):
         return items
     for n, starts, labels in PAIRS:
         for s in starts:
-            for snap in (False, True):
-                items.append((n, s, labels, snap, monitors, None, 60000))
+            items.append((n, s, labels, False, monitors, None, 60000))
     for n, starts, labels in TRIPLES:
         for s in starts:
-            items.append((n, s, labels, False, monitors, 3, 30000))
+            items.append((n, s, labels, False, monitors, TRIPLE_BOUND, 30000))
+    for n, starts, labels in PAIRS:
+        for s in starts[:1]:
+            items.append((n, s, labels, True, monitors, None, 60000))
     return items
+
+
+TRIPLE_BOUND = 4
 
 
 ASSUME = [
@@ -533,8 +527,14 @@ def extra_phase(tier, procs, monitors=('C01', 'C06', 'C41')):
 
     boot.install()
     world()   # build once, before forking
-    items = items_for(tier, tuple(monitors))
+    items = par.rotate(items_for(tier, tuple(monitors)), int(os.environ.get('VERIF_SEED', '0') or 0))
     results = par.pmap(explore_item, items, procs=max(1, min(procs, len(items))), chunksize=1)
+    results.sort(key=lambda r: (r['snapshot_reads'], len(r['ops']), r['pair'], r['start']))
+    # Items explored with REPEATABLE READ snapshot reads are informational: whether InnoDB serves the reads of a stored
+    # function called from a trigger of an UPDATE from the transaction's snapshot or as S-locking reads of the latest
+    # version cannot be settled offline, and that alone decides them (see ASSUME).  They never change the exit code.
+    info = [r for r in results if r['snapshot_reads']]
+    results = [r for r in results if not r['snapshot_reads']]
     viols: Dict[str, dict] = {}
     for r in results:
         for v in r['violations']:
@@ -557,14 +557,24 @@ def extra_phase(tier, procs, monitors=('C01', 'C06', 'C41')):
         'preimage_rows_served_to_plain_reads': tot('preimage_rows_served'), 'dirty_column_waits': tot('dirty_column_waits'),
         'exhaustive': not any(r['capped'] for r in results),
         'capped_items': [f"{r['pair']}/{r['start']}" for r in results if r['capped']],
-        'bounds': 'pairs: every schedule (state-hash pruned DFS); triples: <= 3 deviations from round-robin' if tier != 'quick'
-                  else 'quick subset of pairs: every schedule (state-hash pruned DFS)',
+        'bounds': (f'pairs: every schedule (state-hash pruned DFS); triples: <= {TRIPLE_BOUND} deviations from round-robin; '
+                   if tier != 'quick' else 'quick subset of pairs: every schedule (state-hash pruned DFS); ') +
+                  'executions with more than 2 deadlock victims are finished in FIFO order without further branching',
         'max_worker_threads': max(r['stats']['max_workers'] for r in results),
         'wall': round(time.time() - t0, 1),
-        'per_item': [{k: r[k] for k in ('pair', 'start', 'snapshot_reads', 'executions', 'distinct_outcomes', 'outcomes_by_serial_match',
+        'executions_finished_unbranched_beyond_deadlock_bound': tot('beyond_deadlock_bound'),
+        'per_item': [{k: r[k] for k in ('pair', 'start', 'executions', 'distinct_outcomes', 'outcomes_by_serial_match',
                                         'serial_orders_distinct', 'pruned', 'capped', 'wall')} |
                      {'lock_waits': r['stats']['lock_waits'], 'deadlocks': r['stats']['deadlocks']} for r in results],
+        'samples': [{'pair': r['pair'], 'start': r['start'], 'schedule': r['sample_schedule']} for r in results[:3]],
     }
+    if info:
+        cov['repeatable_read_snapshot_observations (informational, not gating)'] = {
+            'items': len(info), 'interleavings_explored': sum(r['executions'] for r in info),
+            'signatures': sorted({v['signature'] for r in info for v in r['violations']}),
+            'first': next(({'pair': r['pair'], 'start': r['start'], 'signature': v['signature'], 'message': v['message'][:1500],
+                            'replay': v['replay']} for r in info for v in r['violations']), None),
+        }
     if cov['interleavings_explored'] < 20 or cov['lock_waits'] == 0:
         raise RuntimeError(f'statement-interleaving phase explored nothing interesting: {cov}')
     return cov, sorted(viols.values(), key=lambda v: v['signature'])
